@@ -121,8 +121,8 @@ func vpH_C27_HostAndOriginChecks() {
 
 	// Origin / Referer
 	vpReached, vpStatus = 0, 0
-	origins := [4]string{"", "http://ok", "http://foreign", "::bad"}
-	oi, ri := vpLen("origin", 0, 3), vpLen("referer", 0, 3)
+	origins := [5]string{"", "http://ok", "http://foreign", "::bad", "null"} // "null": parses, but has no host
+	oi, ri := vpLen("origin", 0, 4), vpLen("referer", 0, 4)
 	vpHeaders["Origin"], vpHeaders["Referer"] = origins[oi], origins[ri]
 	used := oi
 	if oi == 0 {
@@ -139,6 +139,8 @@ func vpH_C27_HostAndOriginChecks() {
 		vpURLHost = "evil.example.com"
 	case 3:
 		vpURLErr = ErrCSRFInvalid
+	case 4:
+		vpURLHost = ""
 	}
 	h2 := originRefererCheck(apiVersion1, host, []string{"w.x"}, vpInner())
 	h2.ServeHTTP(vpNullWriter{}, &http.Request{Header: http.Header{}})
